@@ -142,21 +142,32 @@ class C07(Prop):
                   "and the product H3.Iso, whose prediction for every scenario line is compared with the real h3 endpoint by this run "
                   "(model half of the driver = H3.Iso run on the line); header validity/size is an oracle parameter (C10/C11/C12); "
                   "granularity = one poll of one task or one transport event; write back-pressure = a byte credit per stream (the "
-                  "431 answer of an oversized request is written without it), grease frame off; real "
+                  "431 answer of an oversized request is modelled as one write that does not wait: ten bytes, the first write of "
+                  "its stream, and the scenarios give every stream at least 32 bytes of initial credit - a 431 waiting for credit "
+                  "inside resolve_request is not modelled; a 431 refused because the peer sent STOP_SENDING is), grease frame off; "
+                  "header validation in the model half = the C12 model H3.Headers with the http crate's scheme / authority / path "
+                  "parsers instantiated for the values the scenarios use (Drv/C07.lean modelHttp); real "
                   "scheduling and timing are not modelled. SimQuic scenario runs with 2..4 concurrent requests, any subset faulted, "
                   "random interleavings and executor orders")
     rule = ("2..4 concurrent requests on one connection, both roles; every request has its own head (method / path / status, a "
             "marker header naming the stream), its own body cut into DATA frames (empty ones included) and random chunks, often its "
             "own trailers, and frames of unknown / reserved types (with payload, cut across deliveries) before the HEADERS, between "
             "the body frames, before and after the trailers; each is healthy or suffers ONE fault: RESET with an arbitrary code at a "
-            "random byte offset, STOP_SENDING, a validly encoded malformed head or trailer section, an oversized head or trailer "
-            "section, FIN before HEADERS (bare or behind unknown frames); the application's calls (head, then rm or rb+rt; "
+            "random byte offset below the end of the message, exactly at its end instead of the FIN (sometimes a FIN behind it), "
+            "or behind the FIN of the complete message (SimQuic never looks at it: both answers accepted), STOP_SENDING, a "
+            "validly encoded malformed head or trailer section of one of the classes of C12 that its oracle and the code refuse "
+            "(upper-case / empty / non-token name, control byte in a value, undefined pseudo-header field, one of the other kind "
+            "of message, :method / :status missing or illegal, no authority, Host contradicting :authority, pseudo-header field "
+            "in trailers), an oversized head or trailer section, on a server also an oversized head whose 431 answer meets a "
+            "STOP_SENDING, FIN before HEADERS (bare or behind unknown frames); the application's calls (head, then rm or rb+rt; "
             "send_response / send_data / send_trailers / finish) are placed before, between and after the deliveries and the fault "
             "(early / late / random merge per stream); a third of the scenarios run under write back-pressure (wc=32..64, credit "
-            "granted in pieces); ops of different streams interleaved at random, executor order seeds; head results, trailers and "
+            "granted in pieces; also next to oversized requests on a server); ops of different streams interleaved at random, executor order seeds; head results, trailers and "
             "the bytes written are compared in full; non-trivial = at least one healthy and one faulted stream in the scenario")
     trusted = ["the decision tables of the request receive path (H3.Gen.ReqArms, FirstFrame, FrameErrCodes, FrameDispatch) are re-read from the sources on this run and the request machine of H3.Iso is proved to follow them (H3.Lemmas.GenAgreeReq/GenAgreeFrame, rebuilt on this run)"]
-    assumptions = ["a RESET may discard data the application had not read yet (QUIC); the specification fixes only the error kind on a faulted stream (the model predicts every answer on SimQuic, which keeps the data before the reset)",
+    assumptions = ["a RESET behind the FIN of a completely delivered message may be ignored (RFC 9000 3.2 'Data Recvd'; SimQuic does) or reported: the specification accepts the healthy answer and the stream-level error with its code; a FIN behind a RESET is ignored",
+                   "which sections are malformed is C12's oracle (H3.Spec.Headers.WellFormedRequest / Response / Trailers), applied only to sections whose :scheme / :authority / :path / Host values are of the plain shapes all readings accept; R-12 cases (repeated pseudo-header fields, pseudo-header fields behind regular ones, missing :scheme / :path) and connection-specific fields get no opinion",
+                   "a RESET may discard data the application had not read yet (QUIC); the specification fixes only the error kind on a faulted stream (the model predicts every answer on SimQuic, which keeps the data before the reset)",
                    "R-07: the documented receive pattern of a request ends with the first error one of its receive calls answers (cfg rxhalt=1: later receive calls are not made); send calls on the same request go on",
                    "the code a client reports for a response stream that ends before HEADERS is H3_MESSAGE_ERROR (RFC 9114 4.1.2, R-07)"]
 
@@ -408,8 +419,10 @@ class C07(Prop):
         chosen = [rng.choice(kinds) for _ in range(k)]
         if all(c != "none" for c in chosen):
             chosen[rng.randrange(k)] = "none"
-        if all(c == "none" for c in chosen):
-            chosen[rng.randrange(k)] = rng.choice(kinds[1:])
+        # a RESET behind the FIN is no fault over SimQuic: such a request counts as healthy here; one "none" stays
+        if all(c in ("none", "resetfin") for c in chosen):
+            keep = chosen.index("none")
+            chosen[rng.choice([i for i in range(k) if i != keep])] = rng.choice([x for x in kinds[1:] if x != "resetfin"])
         # write back-pressure; also with oversized requests on a server: the ten bytes of the 431 answer are the first
         # write of their stream and fit the initial credit, the neighbours' writes wait for theirs
         wc = rng.choice([32, 48, 64]) if rng.random() < 0.33 else 0
